@@ -28,6 +28,11 @@ RULE = ("every puzzle decoder on: malformed URLs; ALL bodies up to length 2 (qui
         "resize) of valid URLs; one-room boards up to 40x40 (64x64) for the room codecs; every library combinator term through "
         "deserialize_problem on the same strings. Outcome must be None, ValueError or a problem of the declared size that "
         "re-encodes and decodes to itself")
-TECHNIQUE = "exception-safety and idempotence contracts on the real decoders, exhaustive over short strings and seeded fuzz; bounded"
-LEVEL_TEXT = "exploration: exhaustive short strings + fuzz; exception safety of the leaf combinators is additionally proved by pyvc where listed in the evidence"
+TECHNIQUE = ("pyvc: exception-safety contracts of the library combinators' deserialize methods proved for all strings and offsets "
+             "(abstract method contract used modularly); bounded: exhaustive short strings and seeded fuzz on every puzzle decoder")
+LEVEL_TEXT = ("exploration overall. Proved without bound (135 obligations): FixStr, Dict, Spaces, DecInt, HexInt, IntSpaces, MultiDigit, "
+              "OneOf, Tupl, Seq, Grid (both asserts, every d2[i*width+j] in range) and deserialize_problem return None / raise only "
+              "ValueError / return a well-formed (n, items) with idx+n inside the text, for ALL strings and offsets, given sub-"
+              "combinators that satisfy the same contract. Bounded: Rooms/ValuedRooms (closures, flood fill), the puzzle wrappers, "
+              "dimensions, re-encoding and idempotence")
 LEVEL_NOTE = "trusted: none beyond the scope; hangs on absurd declared sizes are not judged"
